@@ -295,7 +295,7 @@ def find_buildsystem_files_list(src_dir: str) -> T.List[str]:
     filelist: T.List[str] = []
     for root, _, files in os.walk(src_dir):
         filelist.extend(os.path.relpath(os.path.join(root, f), src_dir)
-                        for f in build_files.intersection(files))
+                        for f in sorted(build_files.intersection(files)))
     return filelist
 
 def list_buildsystem_files(coredata: cdata.CoreData, builddata: build.Build, backend: backends.Backend) -> T.List[str]:
